@@ -107,6 +107,11 @@ func (e *Exec) freshLeaf(s *State, name string, li leafInfo) *Node {
 }
 
 func (e *Exec) constrainLeaf(s *State, n *Node, t types.Type, sortS string) {
+	if sortS == "Str" {
+		l := e.strLen(n)
+		s.assume(And(e.ile(e.idx(0), l), e.ile(l, e.idxBig(maxLen))))
+		return
+	}
 	if t != nil {
 		if _, _, ok := intInfo(t); ok && e.ar.m == ModeInt {
 			s.assume(e.ar.inRange(n, t))
